@@ -86,11 +86,20 @@ def run_case(case):
         rig = ProtoRig(flags, axolotl)
         raised = None
         try:
+            node = T.to_node(tree)
+            skip = 0
+            if kind == "ping" and case.get("collide"):
+                # the server's ping carries the id of a request of this client that is still unanswered
+                pending_id, what = outstanding_request(rig, case["collide"], axolotl)
+                out.label("ping_id_of_pending_" + what)
+                node = T.to_node((tag, dict(attrs, id=pending_id), content))
+                tree = (tag, dict(attrs, id=pending_id), content)
+                skip = len(rig.bottom.sent)
             try:
-                rig.inject(T.to_node(tree))
+                rig.inject(node)
             except Exception as e:
                 raised = e
-            sent = [s for s in rig.bottom.sent]
+            sent = [s for s in rig.bottom.sent][skip:]
         finally:
             rig.close()
         evals += 1
@@ -111,6 +120,22 @@ def run_case(case):
     out.evals = max(1, evals)
     out.nontrivial_n = nt
     return out
+
+
+def outstanding_request(rig, how, axolotl):
+    """leave one request of the client unanswered and return its id: the application's own ping, or (with the encryption
+    layers) the key upload the library starts on the server's key-count notification"""
+    from yowsup.layers.protocol_iq.protocolentities import PingIqProtocolEntity
+    if how == "key_upload" and axolotl:
+        before = len(rig.bottom.sent)
+        rig.inject(T.to_node(("notification", {"from": SERVER, "id": "9911", "type": "encrypt", "t": "1500000000"},
+                              [("count", {"value": "3"}, None)])))
+        ups = [s for s in rig.bottom.sent[before:] if s.tag == "iq" and s["type"] == "set" and s["xmlns"] == "encrypt"]
+        if len(ups) == 1:
+            return ups[0]["id"], "key_upload"
+    ping = PingIqProtocolEntity()
+    rig.send(ping)
+    return ping.getId(), "app_ping"
 
 
 def kind_key(kind, case):
@@ -225,6 +250,9 @@ def plan(tier):
     strategies.append(("call", S.shape_strategy(call.shape).map(lambda t: {"sub": "ack", "kind": "call", "tree": S.tree_to_json(t)}), 4 * n))
     ping = S.N("iq", {"id": S.ID, "type": S.CONST("get"), "from": S.CONST(SERVER), "xmlns": S.CONST("urn:xmpp:ping")})
     strategies.append(("ping", S.shape_strategy(ping).map(lambda t: {"sub": "ack", "kind": "ping", "tree": S.tree_to_json(t)}), 2 * n))
+    for how in ("app_ping", "key_upload"):
+        strategies.append(("ping_with_id_of_pending_" + how,
+                           S.shape_strategy(ping).map(lambda t, _h=how: {"sub": "ack", "kind": "ping", "collide": _h, "tree": S.tree_to_json(t)}), n))
     for group in (False, True):
         for pk in ("revoke", "image_as_text", "empty", "unknown_fields"):
             attrs = dict(_msg_attrs(group), type=S.CONST("text"))
